@@ -186,6 +186,28 @@ pub fn replay_numeric(cases_path: &str, out_path: &str) {
                         | (other, false) => bad("literal-not-rejected-by-checker", format!("{text} at {tn}: {}", other.short())),
                     }
                 }
+                | "f32lit" => {
+                    // an integer-valued decimal literal at Float32, in plain and in exponent spelling
+                    let text = decimal(row["neg"].as_bool().unwrap(), &row["digits"]);
+                    let accept = row["accept"].as_bool().unwrap();
+                    let digits = text.trim_start_matches('-');
+                    let zeros = digits.len() - digits.trim_end_matches('0').len();
+                    let mut spellings = vec![format!("{text}.0")];
+                    if zeros >= 3 && digits.len() > zeros {
+                        let m = &digits[..digits.len() - zeros];
+                        spellings.push(format!("{}{}.{}e{}", if text.starts_with('-') { "-" } else { "" }, &m[..1], if m.len() > 1 { &m[1..] } else { "0" }, digits.len() - 1));
+                    }
+                    for sp in spellings {
+                        n += 1;
+                        let src = format!("{LIT_PRELUDE}let x : Float32 = {sp} in\n! (process/exit) 0\n");
+                        let (v, _) = an.analyze("case.zy", &src);
+                        match (&v, accept) {
+                            | (Verdict::Accepted, true) | (Verdict::Rejected { .. }, false) => {}
+                            | (Verdict::Accepted, false) => bad("float32-literal-not-finite-after-narrowing-accepted", format!("{sp} at Float32")),
+                            | (other, _) => bad("float32-literal-finite-after-narrowing-rejected", format!("{sp} at Float32: {}", other.short())),
+                        }
+                    }
+                }
                 | "flt" => {
                     n += 1;
                     let w = row["w"].as_u64().unwrap();
